@@ -19,7 +19,26 @@ from .core import write_replay
 from .universe import Universe, Unsupported
 
 
-TBU = typing.TypeVar('TBU', bound=typing.Union[int, str])     # a type variable bounded by a union
+TBU = grammar.TBU     # a type variable bounded by a union
+
+
+def _twin_cls(registered):
+    import abc
+    C = abc.ABCMeta('Twin', (), {'__module__': 'bearverif.c19', '__qualname__': 'Twin'})
+    C.register(registered)
+    return C
+
+
+# different hints with one repr(): same-named type variables, classes and new types
+TWIN_TI, TWIN_TS = typing.TypeVar('Twin', bound=int), typing.TypeVar('Twin', bound=str)
+TWIN_CA, TWIN_CI = _twin_cls(grammar.uc.UA), _twin_cls(int)
+TWIN_NI, TWIN_NS = typing.NewType('NTwin', int), typing.NewType('NTwin', str)
+TWINS = [('TwinTI', TWIN_TI), ('TwinTS', TWIN_TS), ('List[TwinTS]', typing.List[TWIN_TS]), ('List[TwinTI]', typing.List[TWIN_TI]),
+         ('Optional[TwinTI]', typing.Optional[TWIN_TI]), ('Optional[TwinTS]', typing.Optional[TWIN_TS]),
+         ('TwinCA', TWIN_CA), ('TwinCI', TWIN_CI), ('List[TwinCI]', typing.List[TWIN_CI]), ('List[TwinCA]', typing.List[TWIN_CA]),
+         ('list[TwinCA]', list[TWIN_CA]), ('list[TwinCI]', list[TWIN_CI]), ('TwinCA|None', TWIN_CA | None), ('TwinCI|None', TWIN_CI | None),
+         ('Dict[str,TwinCI]', typing.Dict[str, TWIN_CI]), ('Dict[str,TwinCA]', typing.Dict[str, TWIN_CA]),
+         ('TwinNS', TWIN_NS), ('TwinNI', TWIN_NI), ('List[TwinNS]', typing.List[TWIN_NS]), ('List[TwinNI]', typing.List[TWIN_NI])]
 
 
 def hint_pool(tier, seed):
@@ -36,7 +55,7 @@ def hint_pool(tier, seed):
             if '[' not in name or any(name.endswith(f'[{l}]') for l in ('int', 'str', 'UA', 'Lit1', 'bool', 'object', 'TU', 'TB')) \
                     or (',' in name and i % 5 == 0):
                 keep.append((name, h))
-        out = keep[:230] + grammar.annotated_hints(1, limit=24)[:24] + [h for h in grammar.special_hints() if 'Any' not in h[0]][::4]
+        out = keep[:230] + grammar.annotated_hints(1, limit=24)[:24] + [h for h in grammar.special_hints() if 'Any' not in h[0]][::4] + TWINS
     else:
         quick = hint_pool('quick', seed)
         out = quick + out[:700] + grammar.special_hints() + grammar.hints_depth2_curated()[::4] + [
@@ -59,6 +78,7 @@ def cases(tier, seed):
 
 
 _POOL = {}
+_HISTORY = []      # rows this (worker) process has evaluated so far: what a replay must redo first
 
 
 def pool_for(tier, seed):
@@ -76,6 +96,8 @@ def run_case(prop, name, idx, confkw, tier, src):
     t0 = time.time()
     pool = pool_for(src['tier'], src['seed'])
     A = pool[idx][1]
+    rows_before = list(_HISTORY)
+    _HISTORY.append(idx)
     try:
         nodeA = refsem.parse(A)
     except Unsupported as e:
@@ -93,7 +115,7 @@ def run_case(prop, name, idx, confkw, tier, src):
         except Exception as e:
             side['unexpected_exceptions'] += 1
             out.findings.append({'kind': 'c19_exception', 'program': 'is_subhint', 'label': f'is_subhint({name}, {bname}) raised {type(e).__name__}',
-                                 'replay': write_replay('C19', {'kind': 'c19_exception', 'hint': src, 'a': name, 'b': bname}),
+                                 'replay': write_replay('C19', {'kind': 'c19_exception', 'hint': src, 'a': name, 'b': bname, 'rows_before': rows_before}),
                                  'detail': f'{type(e).__name__}: {e}', 'hint': f'{name} <= {bname}', 'confkw': {}})
             continue
         if r:
@@ -145,7 +167,7 @@ def run_case(prop, name, idx, confkw, tier, src):
             continue
         m = s.model()
         spec = U.reify(m, x)
-        payload = {'property': 'C19', 'kind': 'c19', 'hint': src, 'a': name, 'b': bname, 'obj': spec}
+        payload = {'property': 'C19', 'kind': 'c19', 'hint': src, 'a': name, 'b': bname, 'obj': spec, 'rows_before': rows_before}
         path = write_replay('C19', payload)
         from .replay import replay_subprocess
         ok, detail = replay_subprocess(path)
@@ -165,7 +187,17 @@ def replay_c19(p):
     from beartype.door import is_subhint, is_bearable
     from beartype import BeartypeConf, BeartypeStrategy
     from . import universe
-    pool = dict(hint_pool(p['hint']['tier'], p['hint']['seed']))
+    plist = hint_pool(p['hint']['tier'], p['hint']['seed'])
+    pool = dict(plist)
+    # the answers of the door API are memoised: redo what the reporting process had asked before
+    for r in list(p.get('rows_before', [])) + ([[n for n, _h in plist].index(p['a'])] if p.get('a') in pool and 'rows_before' in p else []):
+        for bn, B in plist:
+            try:
+                is_subhint(plist[r][1], B)
+            except Exception:
+                pass
+            if r == len(plist) and bn == p.get('b'):
+                break
     if p['kind'] == 'c19_exception':
         try:
             is_subhint(pool[p['a']], pool[p['b']])
@@ -199,6 +231,9 @@ def replay_c19(p):
     return False, f'object conforms to A: {ca}, to B: {cb}'
 
 
+LAWS_INCONCLUSIVE = []
+
+
 def relation_laws(outs, tier, seed):
     """Reflexivity and transitivity of the relation the real is_subhint computed over the pool (a
     table of concrete answers, not a solver verdict).  Pairs on which beartype raises its
@@ -230,6 +265,15 @@ def relation_laws(outs, tier, seed):
                          'replay': write_replay('C19', {'property': 'C19', 'kind': 'c19_transitivity', 'hint': src, 'a': na, 'b': nb, 'c': nc}),
                          'detail': f'is_subhint({na}, {nb}) and is_subhint({nb}, {nc}) hold, is_subhint({na}, {nc}) is False',
                          'hint': f'{na} <= {nc}', 'confkw': {}})
+    # replay before reporting (fresh interpreter, the public function only); a breach that does not
+    # reproduce there depends on what was asked before and is reported as inconclusive, not as a pass
+    from .replay import replay_subprocess
+    confirmed, unconfirmed = [], []
+    for f in findings[:40]:
+        ok, detail = replay_subprocess(f['replay'])
+        (confirmed if ok else unconfirmed).append((f, detail))
+    findings = [f for f, _d in confirmed]
+    LAWS_INCONCLUSIVE[:] = [(f['hint'], {}, f'{f["label"]}: not reproduced in a fresh interpreter ({d})') for f, d in unconfirmed]
     return findings, {'chains_a_le_b_le_c_examined': chains, 'missing_edges': len(missing),
                       'pairs_beartype_calls_undecidable': sum(len(v) for v in und.values()),
                       'note': 'reflexivity and transitivity are laws of the concretely computed relation over the enumerated hints: '
